@@ -149,13 +149,6 @@ def mkCalls : List Op → List (Nat × Nat × Resp) → Nat → List Lin.Call
     if skip then mkCalls ops' recs subAt'
     else ⟨op, inv, r, a⟩ :: mkCalls ops' recs subAt'
 
-def accModel (s : H) (op : Op) (r : Resp) : Option H :=
-  let (s', r') := Health.step s op
-  if r' = r then some s' else none
-
-def accSpec (h : Hist) (op : Op) (r : Resp) : Option Hist :=
-  if Spec.Health.allowed h op r then some ((op, r) :: h) else none
-
 def handleConc (progs : List (List Op)) (obs : List String) : String × String :=
   if obs == ["panic"] then ("not-linearizable", "fail:panic")
   else match parseRecs (obs.length + 1) obs with
@@ -168,8 +161,8 @@ def handleConc (progs : List (List Op)) (obs : List String) : String × String :
         (recs.filter (fun x => x.1 == tid)).length < ops.length)
       if short then ("not-linearizable", "fail:answer-count")
       else
-        let m := Lin.linearizable accModel (fun s => s.watchers.length) Health.init tasks
-        let v := Lin.linearizable accSpec Spec.Health.numWatches [] tasks
+        let m := Lin.linearizable Health.accept (fun s => s.watchers.length) Health.init tasks
+        let v := Lin.linearizable Spec.Health.accept Spec.Health.numWatches [] tasks
         -- a search that ran out of budget decides nothing (neither a disagreement nor a failure)
         (if m == .no then "not-linearizable" else String.intercalate " " obs,
          if v == .no then "fail:not-linearizable" else "ok")
